@@ -42,7 +42,8 @@ def Rel {σ} (c : Conn σ) : PSt → Prop
   | .idle => c.started = true ∧ c.cleaned = false ∧ c.clientAware = false ∧ Inv c
   | .req r => c.started = true ∧ c.cleaned = false ∧ c.clientAware = true ∧ Inv c ∧
       r.ctx = c.ctx ∧ r.nextOff = c.upOff ∧ r.replied = respOrUpg c ∧ r.failed = false ∧
-      r.site.rank ≤ stateSite c.state ∧ (r.handlerSeen = false → c.state.toNat ≤ 5 ∨ r.replied = true)
+      r.site.rank ≤ stateSite c.state ∧ (r.handlerSeen = false → c.state.toNat ≤ 5 ∨ r.replied = true) ∧
+      r.upgraded = decide (c.state.toNat = 23)
 
 /-! ### the automaton, one transition at a time (all by `rfl`) -/
 @[simp] theorem step_fresh_start : Protocol.step .fresh .connStart = .idle := rfl
@@ -64,9 +65,10 @@ def Rel {σ} (c : Conn σ) : PSt → Prop
 @[simp] theorem step_idle_freeCb (n : Nat) : Protocol.step .idle (.freeCb n) = .idle := rfl
 @[simp] theorem step_req_freeCb (q : ReqSt) (n : Nat) : Protocol.step (.req q) (.freeCb n) = .req q := rfl
 @[simp] theorem step_req_interimSent (q : ReqSt) :
-    Protocol.step (.req q) .interimSent = if q.replied then .req { q with replied := false, site := .first } else .bad := rfl
+    Protocol.step (.req q) .interimSent =
+      if q.replied && !q.upgraded then .req { q with replied := false, site := .first } else .bad := rfl
 @[simp] theorem step_req_upgrade (q : ReqSt) :
-    Protocol.step (.req q) .upgrade = if q.replied then .req q else .bad := rfl
+    Protocol.step (.req q) .upgrade = if q.replied && !q.upgraded then .req { q with upgraded := true } else .bad := rfl
 @[simp] theorem step_closed_freeCb (n : Nat) : Protocol.step .closed (.freeCb n) = .closed := rfl
 
 /-- weak precondition of the closing functions -/
